@@ -31,9 +31,9 @@ func weights(focus string) map[string]int {
 		w["CreateCallback"], w["CreateSubscription"] = 5, 4
 		w["ClaimTask"] = 1
 	case "task":
-		w["CreatePromise"], w["CreatePromiseAndTask"], w["CompletePromise"] = 3, 2, 2
-		w["CreateCallback"], w["CreateSubscription"] = 2, 1
-		w["ClaimTask"], w["CompleteTask"], w["HeartbeatTasks"] = 6, 4, 3
+		w["CreatePromise"], w["CreatePromiseAndTask"], w["CompletePromise"] = 4, 2, 2
+		w["CreateCallback"], w["CreateSubscription"] = 3, 1
+		w["ClaimTask"], w["CompleteTask"], w["HeartbeatTasks"] = 7, 3, 3
 	case "lock":
 		w["AcquireLock"], w["ReleaseLock"], w["HeartbeatLocks"] = 5, 3, 3
 	case "search":
@@ -123,7 +123,7 @@ func main() {
 			PBusy: *busy, PSendFull: 0.1, PRouteErr: *routeerr, PSendOk: 0.6, PSendErr: 0.15, PDelay: []float64{0, 0.3, 0.6}[r.Intn(3)], MaxBatch: one(1, 3),
 			Promises: map[bool]int{true: one(4, 7), false: one(2, 3)}[*focus == "search"], HostileIds: *hostile,
 		}
-		d := &driver{r: r, p: prof, converge: *converge}
+		d := &driver{r: r, p: prof, converge: *converge, routedBias: *focus == "task"}
 		for j := 0; j < prof.Promises; j++ {
 			id := fmt.Sprintf("p%d", j+1)
 			if *focus == "search" {
